@@ -16,6 +16,7 @@ import (
 	"strconv"
 	"sync"
 	"testing"
+	"time"
 
 	"github.com/transparency-dev/witness/internal/config"
 	"github.com/transparency-dev/witness/internal/distribute/rest"
@@ -38,8 +39,8 @@ type DistCase struct {
 	Logs        []DistLog `json:"logs"`
 }
 
-var witnessAnswers = []string{"valid", "valid", "valid", "valid-dupwit", "valid-extra-unknown", "missing", "error", "wronglogkey", "nowitsig", "badwitsig", "otherwitness", "nologsig", "corrupted", "otherlog", "wrongorigin-samekey", "empty", "legacywitsig"}
-var distribAnswers = []string{"200", "200", "200", "400", "404", "500", "201", "204", "connerr", "301-200", "302-200", "303-200", "307-200", "308-200", "307-500", "200-bigbody"}
+var witnessAnswers = []string{"valid", "valid", "valid", "valid-dupwit", "valid-extra-unknown", "missing", "error", "wronglogkey", "nowitsig", "badwitsig", "otherwitness", "nologsig", "corrupted", "otherlog", "otherlog-configured", "otherlog-configured", "wrongorigin-samekey", "empty", "legacywitsig"}
+var distribAnswers = []string{"200", "200", "200", "400", "404", "500", "201", "204", "connerr", "301-200", "302-200", "303-200", "307-200", "308-200", "307-500", "200-bigbody", "200-slow", "200-slow"}
 
 type distStub struct {
 	mu   sync.Mutex
@@ -93,6 +94,15 @@ func (d *distStub) RoundTrip(r *http.Request) (*http.Response, error) {
 		}
 	}
 	switch answer {
+	case "200-slow":
+		// a distributor that takes a moment; like a real transport it gives up when the
+		// request's context is cancelled
+		select {
+		case <-time.After(40 * time.Millisecond):
+			return mk(200, "ok", nil), nil
+		case <-r.Context().Done():
+			return nil, r.Context().Err()
+		}
 	case "200":
 		return mk(200, "ok", nil), nil
 	case "200-bigbody":
@@ -180,6 +190,17 @@ func runDist(c *DistCase) (bool, []string, error) {
 		case "corrupted":
 			t2 := vlib.CheckpointText(l.Origin, uint64(l.Size)+1, root[:], nil)
 			b = vlib.Note(t2, logLine, witLine)
+		case "otherlog-configured":
+			// the valid, cosigned checkpoint of ANOTHER configured log (the previous one in the list)
+			if i == 0 {
+				b = vlib.Note(text, logLine)
+			} else {
+				pl := c.Logs[i-1]
+				pk := vlib.NewKey(fmt.Sprintf("logkey%d", pl.KeyIdx), fmt.Sprintf("dlog%d", pl.KeyIdx))
+				proot := main.Root(uint64(pl.Size))
+				pt := vlib.CheckpointText(pl.Origin, uint64(pl.Size), proot[:], nil)
+				b = vlib.Note(pt, pk.SigLine(pt), wk.CosigLine(pt, 1700000000+uint64(i-1)))
+			}
 		case "otherlog":
 			t2 := vlib.CheckpointText(l.Origin+"/other", uint64(l.Size), root[:], nil)
 			k2 := vlib.NewKey("otherlogkey", "otherlog")
@@ -193,7 +214,7 @@ func runDist(c *DistCase) (bool, []string, error) {
 		bb, ee := b, werr
 		dw.answers[lc.ID] = func() ([]byte, error) { return bb, ee }
 		ds.plan[lc.ID] = l.Distrib
-		ok := valid && (l.Distrib == "200" || l.Distrib == "200-bigbody" || l.Distrib == "307-200" || l.Distrib == "308-200")
+		ok := valid && (l.Distrib == "200" || l.Distrib == "200-slow" || l.Distrib == "200-bigbody" || l.Distrib == "307-200" || l.Distrib == "308-200")
 		exps = append(exps, expect{id: lc.ID, valid: valid, bytes: b, ok: ok})
 		classes = append(classes, "wit:"+l.Witness, "dist:"+l.Distrib)
 	}
